@@ -96,8 +96,8 @@ def stepSess {α} (o : NumOps α) (sh : α → String) (allow : Kind → Bool) (
         opt (parseBool? die) (fun die => mutate sh s (fun t => init o t vp (parseUnit pu) pdt ex uv die)) s) s) s) s) s
   | ["set", v, u, pu, pdt, sdt, force] =>
       opt (parseOVal? o v) (fun v => opt (parseORat? pdt) (fun pdt => opt (parseORat? sdt) (fun sdt => opt (parseBool? force) (fun force =>
-        mutate sh s (fun t => set o t v (parseUnit u) (parseUnit pu) pdt sdt force)) s) s) s) s
-  | ["to", u, dt] => opt (parseORat? dt) (fun dt => produce sh s (fun t => to o t (parseUnit u) dt)) s
+        mutate sh s (fun t => setPars o t v (parseUnit u) (parseUnit pu) pdt sdt force)) s) s) s) s
+  | ["to", u, dt] => opt (parseORat? dt) (fun dt => produce sh s (fun t => convertTo o t (parseUnit u) dt)) s
   | ["toparent"] => produce sh s (fun t => toParent o t)
   | ["mul", c] => opt (parseRat? c) (fun c => produce sh s (fun t => mulC o t (o.ofRat c))) s
   | ["rmul", c] => opt (parseRat? c) (fun c => produce sh s (fun t => rmulC o t (o.ofRat c))) s
@@ -131,7 +131,7 @@ def stepLine (st : St) (line : String) : St × String :=
       | some d1, some d2 =>
         (st, match timeRatio (parseUnit u1) d1 (parseUnit u2) d2 with | .ok r => "ok " ++ showRat r | .error e => showErr e)
       | _, _ => (st, "bad-op")
-  | ["Q", "norm", u] => (st, match normUnit (parseUnit u) with | .ok r => "ok " ++ showUnit r | .error e => showErr e)
+  | ["Q", "norm", u] => (st, match canonUnit (parseUnit u) with | .ok r => "ok " ++ showUnit r | .error e => showErr e)
   | "Q" :: ws => let (q, o) := stepSess ratOps showRat (fun k => k = .dur ∨ k = .rate) st.q ws; ({ st with q := q }, o)
   | "F" :: ws => let (f, o) := stepSess floatOps showFloat (fun _ => true) st.f ws; ({ st with f := f }, o)
   | _ => (st, "bad-op")
